@@ -5,7 +5,7 @@ import ast
 
 from ..model import CFG, FCFG
 from .common import site_of
-from .flow import (own, Oblig, calls, events, deps_of, arg_deps, SELF, P, has_fact, escaping_raises, short_exc)
+from .flow import (code_nodes, own, Oblig, calls, events, deps_of, arg_deps, SELF, P, has_fact, escaping_raises, short_exc)
 
 EXPLANATION = (
     "Decides: the Earley scanner / completer never mutate a parse tree that is reachable from an existing chart state "
@@ -61,7 +61,10 @@ def run(eng, rep, tier):
         def _is_zero(e):
             return isinstance(e, ast.Constant) and e.value == 0 and not isinstance(e.value, bool)
 
-        def _is_origin(e):
+        def _is_origin(e, depth=0):
+            if isinstance(e, ast.Name) and depth < 2:
+                from .flow import inline_locals as _il        # `begin = state.positions[0]; if begin == 0`
+                return any(_is_origin(d, depth + 1) for fn_ in code_nodes(prog, fg) for d in _il(fn_, e, depth=1)[1:])
             return isinstance(e, ast.Subscript) and _is_zero(e.slice) and isinstance(e.value, ast.Attribute) and \
                 e.value.attr == "positions"
         origin = [ev for ev in own(sg) if ev.kind == "compare" and isinstance(ev.node, ast.Compare) and len(ev.node.ops) == 1
